@@ -125,7 +125,11 @@ func (m *Manager) SyncLoop(ctx context.Context, errCh chan<- error) {
 				}
 				return
 			}
-			m.dataCache.SetSeen(dataHash)
+			// The data commitment is marked as seen only when the block it belongs to is applied
+			// (trySyncNextBlock does that). Data received over P2P is not authenticated and the seen
+			// key ignores the metadata: an item that merely copies the transactions of a block under
+			// wrong metadata (cached above, dropped later as not matching the header) must not make
+			// the genuine data of that block count as already seen.
 		case <-metricsTicker.C:
 			// Update channel metrics periodically
 			m.updateChannelMetrics()
